@@ -136,3 +136,9 @@ func specGenuineER6(s *icmpDriver, p *packets.FrameParser, t uint8) bool {
 //@ ensures[C05.rtt]         ret0 != nil ==> ret0.RTT >= 0 && ret0.RTT == now() - s.sentProbes[ret0.TTL]
 //@ ensures[C01.fresh]       ret0 != nil ==> fresh(ret0)
 //@ modifies s.mu, ghost clock
+
+//@ func RunICMPTraceroute
+//@ trusted pending: entry point not yet verified against this contract (C10 work item)
+//@ ensures[C10.entry.atom]  ret1 != nil ==> ret0 == nil
+//@ ensures[C03.entry.hops]  ret1 == nil ==> ret0 != nil && forall(i, 0, len(ret0.Hops), ret0.Hops[i] != nil)
+//@ modifies *
